@@ -87,15 +87,20 @@ class Speaker(metaclass=ABCMeta):
 
         while abs(step) >= self._eps_bisect:
             date = begin.date + step
+            if date == begin.date or date == end.date:
+                # There is no date left strictly between begin and end. This
+                # happens when the dates are not aligned on the microsecond
+                # (e.g. UT1 dates), for which the rounded step never vanishes
+                break
             orb = self.propagate(date)
             if listener(begin) * listener(orb) > 0:
                 begin = orb
             else:
                 end = orb
             step = (end.date - begin.date) / 2
-        else:
-            end.event = listener.info(end)
-            return end
+
+        end.event = listener.info(end)
+        return end
 
 
 class Listener(metaclass=ABCMeta):
